@@ -132,7 +132,7 @@ def main(argv=None):
     tasks = []
     for cid in cids:
         c = engine.REGISTRY[cid]
-        for case_id in c.cases:
+        for case_id in engine.case_ids(c, args.tier):
             kr = {}
             for k in known:
                 if k["contract"] == cid and (k.get("cases", "*") == "*" or case_id in k["cases"]):
